@@ -480,3 +480,45 @@ def is_iterator_expr(ctx: Context, fn: FunctionInfo, e: ast.AST | None) -> bool:
                 for x in t.body_nodes()):
             return True
     return False
+
+
+def expand_calls(ctx: Context, fn: FunctionInfo, expr: ast.AST | None,
+                 depth: int = 3) -> ast.AST | None:
+    """`expr` with temporaries expanded and calls of argument-less internal
+    single-return methods/properties replaced by the returned expression."""
+    import copy
+    from sa import norm
+    e = norm.expand(fn, expr)
+    if e is None or depth == 0:
+        return e
+    orig_calls = [n for n in ast.walk(expr) if isinstance(n, ast.Call)]
+
+    def single_return(h: FunctionInfo):
+        body = [s for s in h.node.body if not (isinstance(s, ast.Expr) and
+                                               isinstance(s.value, ast.Constant))]
+        if len(body) == 1 and isinstance(body[0], ast.Return) and \
+                body[0].value is not None:
+            return body[0].value
+        return None
+
+    class T(ast.NodeTransformer):
+
+        def visit_Call(self, node: ast.Call):
+            self.generic_visit(node)
+            if node.args or node.keywords or not isinstance(node.func,
+                                                            ast.Attribute):
+                return node
+            recv = node.func.value
+            if not (isinstance(recv, ast.Name) and recv.id == "self" and
+                    fn.cls is not None):
+                return node
+            h = ctx.repo.find_method(fn.cls, node.func.attr)
+            if h is None:
+                return node
+            r = single_return(h)
+            if r is None:
+                return node
+            return expand_calls(ctx, h, r, depth - 1) or node
+
+    del orig_calls
+    return ast.fix_missing_locations(T().visit(copy.deepcopy(e)))
